@@ -88,6 +88,13 @@ type c13Case struct {
 	Ops     []string `json:"ops"`
 }
 
+func c13SweepClass(st int) string {
+	if st < 100 {
+		return "outside-100-999"
+	}
+	return fmt.Sprintf("%dxx", st/100)
+}
+
 func c13OpIndex(name string) int {
 	for i, n := range c13OpNames {
 		if n == name {
@@ -95,15 +102,29 @@ func c13OpIndex(name string) int {
 		}
 	}
 	var st int
-	if n, _ := fmt.Sscanf(name, "WriteHeader(%d)", &st); n == 1 && st >= 100 && st <= 999 {
-		return st // ops 100..999 are WriteHeader with that status (the status sweep)
+	if n, _ := fmt.Sscanf(name, "WriteHeader(%d)", &st); n == 1 {
+		if st >= 100 && st <= 999 {
+			return st // ops 100..999 are WriteHeader with that status (the status sweep)
+		}
+		for i, c := range c13Invalid {
+			if c == st {
+				return 50 + i
+			}
+		}
 	}
 	return -1
 }
 
+// c13Invalid: status codes net/http itself refuses. A writer may pass them on or ignore them; either way it
+// stays the state machine of the statement (ops 50.. are WriteHeader with these codes).
+var c13Invalid = []int{-1, 1, 99, 1000, 65536}
+
 func c13OpName(op int) string {
 	if op >= 100 {
 		return fmt.Sprintf("WriteHeader(%d)", op)
+	}
+	if op >= 50 && op < 50+len(c13Invalid) {
+		return fmt.Sprintf("WriteHeader(%d)", c13Invalid[op-50])
 	}
 	return c13OpNames[op]
 }
@@ -150,6 +171,14 @@ func c13Exec(method string, flusher bool, ops []int) (key string, bad string) {
 		case op >= 100:
 			w.WriteHeader(op)
 			m.writeHeader(op)
+		case op >= 50 && op < 50+len(c13Invalid):
+			// passed on (then it is the status sent, hooks and all) or ignored altogether (then nothing has
+			// happened): decided by what reached the underlying writer
+			code, before := c13Invalid[op-50], len(spy.log)
+			w.WriteHeader(code)
+			if len(spy.log) == before+1 && spy.log[before] == fmt.Sprintf("H%d", code) {
+				m.writeHeader(code)
+			}
 		}
 		switch op {
 		case 0:
@@ -349,11 +378,15 @@ func c13Run(r *core.Run) {
 	if r.Thorough() {
 		sweepDepth = 4
 	}
-	r.Bounds["status_sweep"] = fmt.Sprintf("every status 100..999 substituted for 201 in every sequence of <=%d operations that contains it", sweepDepth)
+	r.Bounds["status_sweep"] = fmt.Sprintf("every status 100..999, and five codes outside that range, substituted for 201 in every sequence of <=%d operations that contains it", sweepDepth)
 	r.Parallel(func(wk, nw int, l *core.Local) {
-		for st := 100 + wk; st <= 999; st += nw {
+		for sti := wk; sti < 900+len(c13Invalid); sti += nw {
 			if r.Expired() {
 				return
+			}
+			st := 100 + sti
+			if sti >= 900 {
+				st = 50 + (sti - 900) // the codes net/http refuses
 			}
 			for _, method := range []string{"GET", "HEAD"} {
 				for _, fl := range []bool{false, true} {
@@ -367,11 +400,11 @@ func c13Run(r *core.Run) {
 							l.Extra["status_sweep_sequences"]++
 							if _, bad := c13Exec(method, fl, hist); bad != "" {
 								l.Class("mismatch")
-								l.Violate(fmt.Sprintf("rw-model-mismatch/%s/status-sweep/%dxx", method, st/100), bad,
+								l.Violate(fmt.Sprintf("rw-model-mismatch/%s/status-sweep/%s", method, c13SweepClass(st)), bad,
 									c13Case{Method: method, Flusher: fl, Ops: c13Names(hist)})
 								return
 							}
-							l.Class(fmt.Sprintf("sweep:%dxx", st/100))
+							l.Class("sweep:" + c13SweepClass(st))
 						}
 						if len(hist) == sweepDepth {
 							return
